@@ -27,7 +27,7 @@ use ndarray::{
 };
 use serde::{Deserialize, Serialize};
 use std::cell::RefCell;
-use std::collections::{BTreeMap, HashSet};
+use std::collections::{BTreeMap, HashMap, HashSet};
 use std::rc::Rc;
 use std::sync::Mutex;
 
@@ -78,7 +78,9 @@ struct Case {
     #[serde(default)]
     eval: String, // cv: evaluation closure
     #[serde(default)]
-    fault: Option<FaultSpec>, // cv: None = enumerate the whole fault menu
+    fault: Option<FaultSpec>, // cv: None = enumerate the fault menu named by `menu`
+    #[serde(default)]
+    menu: String, // cv: "full" = every (model, fold) for fit and eval faults; "short" = none, two end points, double fault
     #[serde(default)]
     consume: Option<usize>, // iter_fold: items taken before the iterator is dropped; None = {all, 0}
 }
@@ -167,18 +169,30 @@ struct Ref {
     tix: usize,
     rec: Vec<Vec<u64>>,
     tgt: Vec<Vec<u64>>,
+    rec0: HashMap<u64, usize>, // first record column (bits) -> sample id
+    tgt0: HashMap<u64, usize>, // first target column (bits) -> sample id
 }
 
 impl Ref {
     fn new<F: Elem, E: Elem>(c: &Case) -> Ref {
+        let rec: Vec<Vec<u64>> = (0..c.n).map(|i| (0..c.f).map(|j| F::from_tag(rec_tag(i, j)).bits()).collect()).collect();
+        let tgt: Vec<Vec<u64>> = (0..c.n).map(|i| (0..c.tcols).map(|cc| E::from_tag(tgt_tag(i, cc)).bits()).collect()).collect();
         Ref {
             n: c.n,
             f: c.f,
             t: c.tcols,
             tix: c.tix,
-            rec: (0..c.n).map(|i| (0..c.f).map(|j| F::from_tag(rec_tag(i, j)).bits()).collect()).collect(),
-            tgt: (0..c.n).map(|i| (0..c.tcols).map(|cc| E::from_tag(tgt_tag(i, cc)).bits()).collect()).collect(),
+            rec0: rec.iter().enumerate().map(|(i, r)| (r[0], i)).collect(),
+            tgt0: tgt.iter().enumerate().map(|(i, r)| (r[0], i)).collect(),
+            rec,
+            tgt,
         }
+    }
+    fn rec_id(&self, row: &[u64]) -> Option<usize> {
+        row.first().and_then(|b| self.rec0.get(b)).cloned().filter(|&i| self.rec[i] == row)
+    }
+    fn tgt_id(&self, row: &[u64]) -> Option<usize> {
+        row.first().and_then(|b| self.tgt0.get(b)).cloned().filter(|&i| self.tgt[i] == row)
     }
     fn whole(&self) -> Part {
         Part { rec: self.rec.clone(), tgt: self.tgt.clone(), tdim: self.tix, rec_cols: self.f, tgt_cols: self.t }
@@ -196,11 +210,11 @@ impl Ref {
         }
         let mut ids = Vec::with_capacity(p.rec.len());
         for (r, (rec, tgt)) in p.rec.iter().zip(p.tgt.iter()).enumerate() {
-            let id = match self.rec.iter().position(|e| e == rec) {
+            let id = match self.rec_id(rec) {
                 Some(i) => i,
                 None => return Err(("foreign_record_row", format!("row {}: record bits {:?} are no row of the dataset", r, rec))),
             };
-            let tid = match self.tgt.iter().position(|e| e == tgt) {
+            let tid = match self.tgt_id(tgt) {
                 Some(i) => i,
                 None => return Err(("foreign_target_row", format!("row {}: target bits {:?} are no target row of the dataset", r, tgt))),
             };
@@ -507,7 +521,10 @@ fn restored_sig(op: &str, before: &Part, after: &Part) -> String {
 }
 
 fn ids_lossy(rf: &Ref, p: &Part) -> Vec<i64> {
-    p.rec.iter().map(|r| rf.rec.iter().position(|e| e == r).map(|x| x as i64).unwrap_or(-1)).collect()
+    p.rec.iter().map(|r| rf.rec_id(r).map(|x| x as i64).unwrap_or(-1)).collect()
+}
+fn tgt_ids_lossy(rf: &Ref, p: &Part) -> Vec<i64> {
+    p.tgt.iter().map(|r| rf.tgt_id(r).map(|x| x as i64).unwrap_or(-1)).collect()
 }
 
 fn iter_fold_core<F: Elem, E: Elem, I: TargetDim, D: DataMut<Elem = F>, S: DataMut<Elem = E>>(
@@ -638,7 +655,7 @@ fn iter_fold_core<F: Elem, E: Elem, I: TargetDim, D: DataMut<Elem = F>, S: DataM
                 "after iter_fold({}) on {} samples ({} features, {} target columns, {}) the dataset holds samples {:?} with target rows of samples {:?}; expected the original order 0..{}",
                 c.k, c.n, c.f, c.tcols, c.kind,
                 ids_lossy(rf, &after),
-                after.tgt.iter().map(|r| rf.tgt.iter().position(|e| e == r).map(|x| x as i64).unwrap_or(-1)).collect::<Vec<_>>(),
+                tgt_ids_lossy(rf, &after),
                 c.n
             ),
             cj.clone(),
@@ -760,8 +777,15 @@ impl<'c, I: TargetDim> Fit<ArrayView2<'c, f64>, ArrayView<'c, f64, I>, MockError
     fn fit(&self, ds: &DatasetBase<ArrayView2<'c, f64>, ArrayView<'c, f64, I>>) -> Result<MockModel, MockError> {
         let part = part_of(ds.records(), ds.targets());
         // which block is held out, judged from the rows actually shown
-        let ids: Vec<usize> = part.rec.iter().map(|r| (f64::from_bits(r[0]) / 100.0).floor() as usize).collect();
-        let held = (0..self.k * self.fs).find(|x| !ids.contains(x)).map(|x| x / self.fs.max(1));
+        let span = self.k * self.fs;
+        let mut present = vec![false; span];
+        for r in part.rec.iter() {
+            let id = (f64::from_bits(r[0]) / 100.0).floor();
+            if id >= 0.0 && (id as usize) < span {
+                present[id as usize] = true;
+            }
+        }
+        let held = present.iter().position(|&p| !p).map(|x| x / self.fs.max(1));
         let fp = fingerprint(&part.rec, &part.tgt);
         let t = part.tgt_cols;
         self.log.borrow_mut().push(FitCall { part });
@@ -944,6 +968,12 @@ fn cv_single_call<D: DataMut<Elem = f64>, S: DataMut<Elem = f64>>(
 
 fn fault_menu(c: &Case) -> Vec<FaultSpec> {
     let mut v = vec![FaultSpec::none()];
+    if c.menu == "short" {
+        v.push(FaultSpec { kind: "fit".into(), model: c.m - 1, fold: 0, model2: 0, fold2: 0 });
+        v.push(FaultSpec { kind: "eval".into(), model: 0, fold: c.k - 1, model2: 0, fold2: 0 });
+        v.push(FaultSpec { kind: "both".into(), model: 0, fold: c.k - 1, model2: c.m - 1, fold2: 0 });
+        return v;
+    }
     for a in 0..c.m {
         for b in 0..c.k {
             v.push(FaultSpec { kind: "fit".into(), model: a, fold: b, model2: 0, fold2: 0 });
@@ -1024,15 +1054,21 @@ fn check_cv(op: &str, c: &Case, fault: &FaultSpec, rf: &Ref, exp: &CvExpect, out
             }
         }
     }
-    // every fit saw a legitimate training part of some fold
+    // every fit saw a legitimate training part: the complement of the block it holds out
+    let fs = c.n / c.k;
     for (no, fc) in fits.iter().enumerate() {
         match rf.decode(&fc.part) {
             Ok(mut ids) => {
                 ids.sort();
-                if !exp.train_sets.contains(&ids) {
+                let mut present = vec![false; c.k * fs];
+                for &i in ids.iter().filter(|&&i| i < c.k * fs) {
+                    present[i] = true;
+                }
+                let held = present.iter().position(|&p| !p).map(|x| x / fs);
+                if held.map_or(true, |h| exp.train_sets[h] != ids) {
                     viols.push(Violation::new(
                         format!("{}.fit_on_wrong_training_set", op),
-                        format!("{}: fit call {} was given samples {:?}, which is the complement of no validation block (blocks of {} samples)", head, no, ids, c.n / c.k),
+                        format!("{}: fit call {} was given samples {:?}, which is the complement of no validation block (blocks of {} samples)", head, no, ids, fs),
                         cj.clone(),
                     ));
                     break;
@@ -1045,20 +1081,30 @@ fn check_cv(op: &str, c: &Case, fault: &FaultSpec, rf: &Ref, exp: &CvExpect, out
         }
     }
     // every evaluation saw (predictions of a model trained on fold i's training part, targets of block i)
+    let mut evaluated = vec![false; exp.eval_calls.len()];
     for (no, call) in evals.iter().enumerate() {
-        if !exp.eval_calls.contains(call) {
-            let p: Vec<Vec<f64>> = call.0.iter().map(|r| r.iter().map(|&b| f64::from_bits(b)).collect()).collect();
-            let t: Vec<Vec<f64>> = call.1.iter().map(|r| r.iter().map(|&b| f64::from_bits(b)).collect()).collect();
-            viols.push(Violation::new(
-                format!("{}.eval_called_with_wrong_arguments", op),
-                format!("{}: evaluation call {} got predictions {:?} and targets {:?}: not (predictions of a model fitted on a fold's training part, that fold's validation targets)", head, no, p, t),
-                cj.clone(),
-            ));
-            break;
+        let fold = call.1.first().and_then(|r| rf.tgt_id(r)).map(|i| i / fs);
+        let model = call.0.first().and_then(|r| r.first()).map(|&b| ((f64::from_bits(b) / 1000.0).floor() as i64 - 1).max(0) as usize);
+        let idx = match (fold, model) {
+            (Some(fo), Some(mo)) if fo < c.k && mo < c.m => Some(fo * c.m + mo),
+            _ => None,
+        };
+        match idx {
+            Some(ix) if &exp.eval_calls[ix] == call => evaluated[ix] = true,
+            _ => {
+                let p: Vec<Vec<f64>> = call.0.iter().map(|r| r.iter().map(|&b| f64::from_bits(b)).collect()).collect();
+                let t: Vec<Vec<f64>> = call.1.iter().map(|r| r.iter().map(|&b| f64::from_bits(b)).collect()).collect();
+                viols.push(Violation::new(
+                    format!("{}.eval_called_with_wrong_arguments", op),
+                    format!("{}: evaluation call {} got predictions {:?} and targets {:?}: not (predictions of a model fitted on a fold's training part, that fold's validation targets)", head, no, p, t),
+                    cj.clone(),
+                ));
+                break;
+            }
         }
     }
     if ok_result {
-        if let Some(miss) = exp.eval_calls.iter().position(|e| !evals.contains(e)) {
+        if let Some(miss) = evaluated.iter().position(|&e| !e) {
             viols.push(Violation::new(
                 format!("{}.eval_call_missing", op),
                 format!("{}: (fold {}, model {}) was never evaluated although Ok was returned", head, miss / c.m, miss % c.m),
@@ -1073,7 +1119,7 @@ fn check_cv(op: &str, c: &Case, fault: &FaultSpec, rf: &Ref, exp: &CvExpect, out
                 "after {} the dataset holds samples {:?} with target rows of samples {:?}; expected the original order",
                 head,
                 ids_lossy(rf, after),
-                after.tgt.iter().map(|r| rf.tgt.iter().position(|e| e == r).map(|x| x as i64).unwrap_or(-1)).collect::<Vec<_>>()
+                tgt_ids_lossy(rf, after)
             ),
             cj,
         ));
@@ -1249,12 +1295,13 @@ fn main() {
     let ctx = Ctx::new("C01", Level::ModelChecking);
     ctx.maybe_replay(&replay_value);
     let nmax: usize = ctx.pick(12, 30);
+    let full_menu_n: usize = ctx.pick(8, 12); // above this n only the "mae" closure is combined with the full fault menu
     ctx.set_rule(&format!(
         "every (n, k, f, target shape, storage kind, element types): n = 1..{nmax}, k = 2..n, f in 1..3 features, targets 1-d and 2-d with 1..3 columns; \
          fold on owned / view / row-strided view / column-sliced view / column-major owned; iter_fold on owned / ArrayViewMut / ArrayViewMut window with guard rows \
          (+ row-strided and column-major storage for the documented panic), element types f64/f64 and f32/u32, iterator consumed completely and dropped unconsumed; \
-         cross_validate (all target shapes) and cross_validate_single (1-d) on the three contiguous kinds x 1..3 mock models x 4 evaluation closures x the whole fault menu \
-         (none; fit error of every model at every fold; eval error for every model at every fold; one double fault); degenerate k in {{0, 1, n+1, n+2}} for documented behaviour only. \
+         cross_validate (all target shapes) and cross_validate_single (1-d) on the three contiguous kinds x 1..3 mock models x 4 evaluation closures x the fault menu \
+         (none; fit error of every model at every fold; eval error for every model at every fold; one double fault; for n > {full_menu_n} the closures other than 'mae' get the short menu: none, fit error of the last model at fold 0, eval error for model 0 at the last fold, the double fault); degenerate k in {{0, 1, n+1, n+2}} for documented behaviour only. \
          evaluation = one call of fold / iter_fold / cross_validate(_single) on a freshly built dataset; non-trivial = in-domain call (2 <= k <= n, standard layout where required) whose result is \
          compared with the reference; distinct by construction (nested loops over the parameter grid). iter_fold states = distinct (phase, fold index, visible sample order) observations per trace \
          (initial buffer, training view inside every closure call, every yielded validation view, final buffer); transitions = swap-in + fit + swap-back per closure call (reference buffer stepped in lock-step) + yields."
@@ -1270,7 +1317,7 @@ fn main() {
     // ---------------- enumerate ----------------
     let mut cases: Vec<Case> = Vec::new();
     let base = |op: &str, n, k, f, tix, tcols, kind: &str, elem: &str| Case {
-        op: op.into(), n, k, f, tix, tcols, kind: kind.into(), elem: elem.into(), m: 0, eval: String::new(), fault: None, consume: None,
+        op: op.into(), n, k, f, tix, tcols, kind: kind.into(), elem: elem.into(), m: 0, eval: String::new(), fault: None, menu: String::new(), consume: None,
     };
     for n in 1..=nmax {
         for k in 2..=n {
@@ -1290,6 +1337,7 @@ fn main() {
                                 let mut c = base("cv", n, k, f, tix, tcols, kind, "f64/f64");
                                 c.m = m;
                                 c.eval = ev.into();
+                                c.menu = if n <= full_menu_n || ev == "mae" { "full".into() } else { "short".into() };
                                 cases.push(c.clone());
                                 if tix == 1 {
                                     c.op = "cv_single".into();
